@@ -415,6 +415,24 @@ def partial_rows(cats):
             fn(log, cats[key])
     return log
 
+def tuple_reads(x, y):
+    p, q = _Rec(x), _Rec(y)
+    a, b = p.a, q.a
+    c, a2 = a, b
+    return a, b, c, a2
+
+def _mv_a(log, v):
+    log.append(("a", v))
+
+def _mv_b(log, v):
+    log.append(("b", v))
+
+def picked_function(v):
+    log = []
+    mover = _mv_a if isinstance(v, int) else _mv_b
+    mover(log, v)
+    return log
+
 def make(container):
     def call(v):
         container.append(v)
@@ -445,6 +463,8 @@ INPUTS = {
     "require_form": [(1,), (3,)],
     "all_map": [([1, 2],), ([0, 1],), ([],)],
     "use_factory": [(1,), (2,)],
+    "picked_function": [(1,), ("x",)],
+    "tuple_reads": [(1, 2), (None, 3)],
     "partial_rows": [({"a": [1], "b": [2]},), ({"c": [3]},), ({},)],
     "quantified": [(1, 1), (0, 0), (3, 0), (2, 2)],
     "eafp": [(1,), (3,)],
